@@ -91,4 +91,21 @@ impl Prop for C01 {
     fn signal_is_violation() -> bool {
         true
     }
+    fn extra(tier: Tier, seed: u64, ev: &mut ExtraEvidence) -> Vec<Violation> {
+        if tier != Tier::Thorough {
+            return Vec::new();
+        }
+        crate::fuzz::run(
+            &crate::fuzz::Campaign {
+                property: "C01",
+                target: "cq_history",
+                asan: false,
+                runs: 2_000_000,
+                max_len: 300,
+                seed,
+                seeds: crate::fuzz::random_seeds(seed, 24, 300),
+            },
+            ev,
+        )
+    }
 }
